@@ -61,6 +61,61 @@ P = {
         text="Decides the structural necessary conditions of C19: every public mutating method of the data interface is overridden by a raise in the importer, private writers are unreachable from run-path modules and run paths use only the non-committing getData (R1); the condition of the MissingEphemerisError raise is implied by 'registered minus retrieved is non-empty' for every value of the other atoms (R2); records are imported into the registrant of their own id, which is then removed (R3); imported observations flow to saveObservations and every attribute read on a ray.get value resolves in the class its handle was put with (R4). Does NOT decide the contents of arbitrary importer files.",
         ref="DESIGN.md section 4, C19",
     ),
+    "C03": dict(
+        technique="static analysis: slice arithmetic of the strided (6, K) batch layout in both derivative siblings, dataflow confinement of the elapsed time to the absolute epoch, normal-form agreement of the two-body acceleration and the f/g closed form",
+        text="Deliberately narrow: decides that both derivative implementations and the restart loop use one strided (6, K) layout (R1), that the perturbed derivative depends on time only through init_julian_date + t/86400 (R2), and that the two-body acceleration and the universal Kepler f/g closed form with its consistency guard are the documented expressions (R3). Does NOT decide split/restart equality within tolerance, Kepler exactness or conservation - integrator numerics, which no static argument in reach bounds.",
+        ref="DESIGN.md section 4, C03",
+    ),
+    "C07": dict(
+        technique="static analysis: closure of the public decision path (override / who-may-call / writer enumeration), dependence of the optimiser input on the mask, registry totality and injectivity, store-shape checks, normal-form agreement of the reward formulas",
+        text="Decides the structural necessary conditions of C07: the only public decision path ends in `& visibility_matrix`, nothing overrides or bypasses it, the engine stores the result unmodified and visibility is set only by successful predicted observations - so a sensor is only ever tasked to a target it can see, for all matrices (R1); whether the assignment optimiser sees the mask (R2, known finding K4); label registries total and injective (R3); store shapes and optimiser arguments of the four policies (R4); documented reward combination and per-metric normalisation (R5). Does NOT decide optimality of the assignment, argmax correctness, equivariance or metric values.",
+        ref="DESIGN.md section 4, C07",
+    ),
+    "C09": dict(
+        technique="static analysis: provenance of every epoch key, single-transaction / who-may-write enumeration, AST typestate of the session scope, drain-accessor shapes, epoch-coverage obligation over stepForward / saveDatabaseOutput, column-slot agreement from column names",
+        text="Decides the structural necessary conditions of C09: every row built on a run path is keyed by a canonical epoch source (R1); one list and one final bulkSave per step, closed set of database writers (R2); session scope commits only after a clean yield, rolls back and re-raises otherwise, always closes (R3); one ephemeris per agent per output and drained buffers (R4); agent rows are ensured before events referencing them (R5); the epoch of every step whose rows are buffered is ensured before the bulk save (R6); Julian date / timestamp pairing of Epoch rows (R7); the 6 state and 36 covariance columns are written and read back at the index their name encodes (R8). Does NOT decide numeric values read back or row counts over all step / output-step combinations.",
+        ref="DESIGN.md section 4, C09",
+    ),
+    "C10": dict(
+        technique="static analysis: non-interference by writer enumeration of truth fields, interprocedural effect summaries of the step closure with Ray put/get as a copy boundary, aliasing and configuration-flow checks, CFG dominance of the propagation join",
+        text="Decides the non-interference conditions behind C10: a closed set of writers of truth state and of callers of the truth setters (R1); the step's closure after the propagation join writes nothing of a driver agent but sensor pointing and the time-bias queue, estimation / tasking / sensor code never calls a truth writer (R2); propagation jobs are built from and merged into their own agent only (R3); no dynamics object is shared between agents (R4); only propagation / geopotential / perturbation / time settings reach truth dynamics and the estimate's settings are a deep copy (R5); propagation is unconditional and precedes estimation / tasking (R6); output and call splitting keep no state (R7). Does NOT decide bit-for-bit determinism of SciPy and Ray.",
+        ref="DESIGN.md section 4, C10",
+    ),
+    "C12": dict(
+        technique="static analysis: path-condition case tables of the four sibling case splits, unit-conversion counting at the configuration boundary, decorator / closed-form checks of the anomaly conversions",
+        text="Narrow: decides that eci2coe, singularityCheck, ClassicalElements.fromConfig and COEStateConfig.validate_elements agree on the (inclined, eccentric) case partition, on which slots are zero and on the slot of each singular case's defining angle (R1); that angular configuration fields are converted to radians exactly once (R2); that every anomaly conversion is range-wrapped, guards the circular case and has its documented closed form (R3). Does NOT decide any round trip as numbers.",
+        ref="DESIGN.md section 4, C12",
+    ),
+    "C13": dict(
+        technique="static analysis: def-use / switch coverage of perturbation terms, frame-kind and slot checks of the helper calls, normal-form agreement of each perturbation formula with its cited reference",
+        text="Decides the structural necessary conditions of C13: each perturbation is defined under its own switch and summed once with the point-mass term, configuration fields map one-to-one onto switches (R1); the geopotential is evaluated on R^T r and rotated back, helper slots and the Sun position are consistent, one epoch (R2); degree / order slots, loop ranges, unit conversions (R3); third-body, SRP, relativistic, Cunningham recursion and acceleration partials equal their cited reference expressions as normal forms (R4). Does NOT decide the value of any formula, the Chebyshev ephemerides or continuity of Sun / Moon positions.",
+        ref="DESIGN.md section 4, C13",
+    ),
+    "C15": dict(
+        technique="static analysis: taint of the burn end time through the integrator event function, weak-ordering evaluation of the re-arm / retention predicates, sibling agreement of the orbital derivatives on applying the armed thrust",
+        text="Decides the structural necessary conditions of C15: whether the burn's end time can produce a sign change or an integration bound (R1, known finding K2: it cannot unless step-aligned); re-arm iff start < t0 < end, retention while now < end, callback / restart loop / registries / payload slots (R2); every orbital derivative applies the armed thrust (R3, defect fixed for two-body). Does NOT decide the delivered delta-v.",
+        ref="DESIGN.md section 4, C15",
+    ),
+    "C16": dict(
+        technique="static analysis: angle-kind dataflow in the filters, shape checks of the wrap / residual / circular-mean helpers, order agreement of labels, flags and values, iteration-order checks of stacked quantities",
+        text="Decides the structural necessary conditions of C16: measurement vectors never meet in a raw subtraction or linear mean in the filters (R1); every angular residual ends in a true modulo wrap of (first - second), the wrap helpers reduce modulo 2pi with the documented closed end, the circular mean reads angles only through sin / cos with common weights (R2); labels, flags and values share one order and each measurement type declares the angular kind matching its range (R3); stacked quantities iterate the observation list in order (R4). Does NOT decide numerical invariance to turns and permutations.",
+        ref="DESIGN.md section 4, C16",
+    ),
+    "C17": dict(
+        technique="static analysis: protocol agreement over all detector classes (CFG must-pass-through of the metric store), normal-form agreement of the three statistics, polarity of the chi-square test, control dependence of the flags",
+        text="Decides the structural necessary conditions of C17: every detector stores the statistic it tests and returns `not test(metric, threshold, dof)` (R1); the three statistics and their degrees of freedom are the documented expressions, windows are paired deques of the configured length, the fading recursion advances before it is read (R2); the chi-square test is the strict upper-tail comparison and the quadratic form r^T P^-1 r (R3); flags are raised iff the detector fired (R4). Does NOT decide chi-square values or monotonicity as numbers.",
+        ref="DESIGN.md section 4, C17",
+    ),
+    "C18": dict(
+        technique="static analysis: path-sensitive normalised / raw typestate of the model weights with inlined self / super calls and a tracked truthiness atom, dominance of model removal by its guard, parallel-array pairing, normal-form agreement of the mixture formulas",
+        text="Decides the structural necessary conditions of C18: every public exit of update / prune / initialize and every mixture read sees weights assigned a normalising form, and the zero-mass reset precedes the division (R1, R2); model removal is guarded by `more than one model`, shrinks all parallel arrays with the same index, back to front (R3); the mixture mean is refreshed before the covariance, and mean / covariance / likelihood / Bayes step / handed-back filter are the documented expressions (R4). Does NOT decide Bayes-rule values, underflow beyond the reset, or PSD-ness.",
+        ref="DESIGN.md section 4, C18",
+    ),
+    "C20": dict(
+        technique="static analysis: inverse-chain and slot-kind check of the radar-observation inversion, vector-shape (3 vs 6 elements) discipline of the IOD pipeline, slot / epoch agreement of the Lambert call and f-g velocity reconstruction",
+        text="Narrow: decides that radarObs2eciPosition is the reversed inverse chain of the measurement model with each observed quantity in the slot of its kind (R1); that no certainly-3-element position reaches an unguarded velocity slice in the IOD pipeline (R2, defect fixed); that the pipeline hands the solver (r1, r2, t2 - t1, sense) of exactly the two observations used and returns (r2, v2), with the documented f-g velocity reconstruction (R3). Does NOT decide both Lambert iterations nor the accuracy of the IOD result (boundary-value numerics) - the larger part of the property; an honest partial claim.",
+        ref="DESIGN.md section 4, C20",
+    ),
 }
 
 NA_PENDING = "check not built yet in this session (design in DESIGN.md section 4); will be claimed once its rule module exists"
